@@ -20,7 +20,13 @@ def run(ck):
     cases = gen_corpus("ALL", shards=16, module="gen/Gen_Subst",
                        deps=("gen/Gen_Subst.tla", "SmtTypes.tla", "SmtSyntaxFns.tla"))
     n = 7000 if quick else 40000
-    picked = ck.rng.sample(cases, min(n, len(cases)))
+    def chained(c):
+        return any(v["op"] == "symbol" and v["n"] in ("c1", "c2", "u1", "u2") for v in c["vals"])
+    ch = [c for c in cases if chained(c)]
+    rest = [c for c in cases if not chained(c)]
+    nch = 1500 if quick else len(ch)
+    picked = ck.rng.sample(rest, min(n, len(rest))) + ck.rng.sample(ch, min(nch, len(ch)))
+    ck.part("corpus", cases=len(cases), chained_maps=len(ch), used=len(picked))
     ms = MSSubstituter(env)
     evs = []
     eid = 0
